@@ -8,7 +8,7 @@ open IcyVerif.Gen.Art
 inductive RowsOk (o : AnsiOpts) (w : Nat) : List (List Cell) → List (List (Option Cell)) → Prop
   | nil : RowsOk o w [] []
   | cons (row : List Cell) (items : List (Option Cell)) (rows : List (List Cell)) (irows : List (List (Option Cell))) :
-      items.length = ansiRowLen o w row → ItemsOk 0 w (row.take (ansiRowLen o w row)) items → RowsOk o w rows irows →
+      items.length = ansiRowLen o dosPalette w row → ItemsOk 0 w (row.take (ansiRowLen o dosPalette w row)) items → RowsOk o w rows irows →
       RowsOk o w (row :: rows) (items :: irows)
 
 theorem RowsOk.length_eq {o : AnsiOpts} {w : Nat} {rows : List (List Cell)} {irows : List (List (Option Cell))}
@@ -19,8 +19,8 @@ theorem RowsOk.length_eq {o : AnsiOpts} {w : Nat} {rows : List (List Cell)} {iro
 
 theorem RowsOk.get {o : AnsiOpts} {w : Nat} {rows : List (List Cell)} {irows : List (List (Option Cell))}
     (h : RowsOk o w rows irows) : ∀ y, y < rows.length →
-      (irows.getD y []).length = ansiRowLen o w (rows.getD y []) ∧
-      ItemsOk 0 w ((rows.getD y []).take (ansiRowLen o w (rows.getD y []))) (irows.getD y []) := by
+      (irows.getD y []).length = ansiRowLen o dosPalette w (rows.getD y []) ∧
+      ItemsOk 0 w ((rows.getD y []).take (ansiRowLen o dosPalette w (rows.getD y []))) (irows.getD y []) := by
   induction h with
   | nil => intro y hy; simp at hy
   | cons row items rows irows h1 h2 _ ih =>
@@ -47,7 +47,7 @@ theorem RowsOk.fits {o : AnsiOpts} {w : Nat} (hw : 0 < w) {rows : List (List Cel
     · subst e
       obtain ⟨l1, l2, _⟩ := ansiRowLen_spec o w hw row
       have hrow : row.length = w := hfull row List.mem_cons_self
-      have htl : (row.take (ansiRowLen o w row)).length = ansiRowLen o w row := by simp; omega
+      have htl : (row.take (ansiRowLen o dosPalette w row)).length = ansiRowLen o dosPalette w row := by simp; omega
       refine ⟨by omega, ?_⟩
       intro i hi hn
       have := itemsOk_skips (by rw [htl]; exact h1) h2 i hi hn
@@ -80,17 +80,17 @@ theorem rows_comp (o : AnsiOpts) (im : IceMode) (ic : Bool) (hic : ic = decide (
     intro st A y first p core hfull hd hrel hinv hcx hy
     have hrow : row.length = w := hfull row List.mem_cons_self
     obtain ⟨l1, l2, l3⟩ := ansiRowLen_spec o w hw0 row
-    have htl : (row.take (ansiRowLen o w row)).length = ansiRowLen o w row := by simp; omega
-    obtain ⟨G1, G2⟩ := lineOk_gen o im ic hic row (hd row List.mem_cons_self) (ansiRowLen o w row) 0 st A (by omega) hrel
+    have htl : (row.take (ansiRowLen o dosPalette w row)).length = ansiRowLen o dosPalette w row := by simp; omega
+    obtain ⟨G1, G2⟩ := lineOk_gen o im ic hic row (hd row List.mem_cons_self) (ansiRowLen o dosPalette w row) 0 st A (by omega) hrel
     unfold genCells
-    generalize hg : genCellsRow o dosPalette im row (ansiRowLen o w row) 0 st = res at G1 G2
+    generalize hg : genCellsRow o dosPalette im row (ansiRowLen o dosPalette w row) 0 st = res at G1 G2
     obtain ⟨line, st1⟩ := res
     simp only [List.drop_zero] at G1 G2 ⊢
-    have hll : line.length = ansiRowLen o w row := by rw [G1.length_eq, htl]
+    have hll : line.length = ansiRowLen o dosPalette w row := by rw [G1.length_eq, htl]
     have hx0 : core.scr.cx = 0 := hcx (by simp)
-    obtain ⟨items, I1, I2, I3, I4⟩ := genLine_items o ic w hw line.length (row.take (ansiRowLen o w row)) line A 0 p core (Nat.le_refl _) G1
+    obtain ⟨items, I1, I2, I3, I4⟩ := genLine_items o ic w hw line.length (row.take (ansiRowLen o dosPalette w row)) line A 0 p core (Nat.le_refl _) G1
       (by rw [htl]; omega) hinv (fun _ => hx0)
-    have hil : items.length = ansiRowLen o w row := by rw [I1, htl]
+    have hil : items.length = ansiRowLen o dosPalette w row := by rw [I1, htl]
     unfold genLines
     simp only [hl, Bool.false_eq_true, if_false, List.nil_append, Bool.not_false, true_and]
     -- the row's own screen effect, as `rowItems`
@@ -104,7 +104,7 @@ theorem rows_comp (o : AnsiOpts) (im : IceMode) (ic : Bool) (hic : ic = decide (
       | cons a b => simp at hy ⊢; omega
     have hrowscr : ∃ p2 core2, ansiRun p core (genLine o w line.length 0 line ++
           (if line.length < w ∧ y + 1 < ht then (if o.compress = true ∧ w ≤ line.length + 1 then [32] else [13, 10]) else [])) = (p2, core2) ∧
-        core2.scr = rowItems w items (!rest.isEmpty) core.scr ∧ CInv ic (lastAttr ic A (row.take (ansiRowLen o w row))) w p2 core2 := by
+        core2.scr = rowItems w items (!rest.isEmpty) core.scr ∧ CInv ic (lastAttr ic A (row.take (ansiRowLen o dosPalette w row))) w p2 core2 := by
       rw [ansiRun_append]
       generalize hr : ansiRun p core (genLine o w line.length 0 line) = res at I3 I4
       obtain ⟨p1, core1⟩ := res
@@ -138,7 +138,7 @@ theorem rows_comp (o : AnsiOpts) (im : IceMode) (ic : Bool) (hic : ic = decide (
       rw [s2]
       have : (!rest.isEmpty) = true := by cases rest <;> simp_all
       exact (R.pos this).1
-    obtain ⟨irows, J1, J2, J3, J4⟩ := ih st1 (lastAttr ic A (row.take (ansiRowLen o w row))) (y + 1) false p2 core2
+    obtain ⟨irows, J1, J2, J3, J4⟩ := ih st1 (lastAttr ic A (row.take (ansiRowLen o dosPalette w row))) (y + 1) false p2 core2
       (fun r hr => hfull r (List.mem_cons_of_mem _ hr)) (fun r hr => hd r (List.mem_cons_of_mem _ hr)) G2 inv2 hcx2
       (by simp at hy; omega)
     refine ⟨items :: irows, RowsOk.cons row items rest irows hil I2 J1, ?_, J3, J4⟩
@@ -202,19 +202,19 @@ theorem rows_longer (o : AnsiOpts) (im : IceMode) (ic : Bool) (hic : ic = decide
     intro st A y first p core hfull hd hrel hinv hA hy
     have hrow : row.length = w := hfull row List.mem_cons_self
     obtain ⟨l1, l2, l3⟩ := ansiRowLen_spec o w hw0 row
-    have htl : (row.take (ansiRowLen o w row)).length = ansiRowLen o w row := by simp; omega
-    obtain ⟨G1, G2⟩ := lineOk_gen o im ic hic row (hd row List.mem_cons_self) (ansiRowLen o w row) 0 st A (by omega) hrel
+    have htl : (row.take (ansiRowLen o dosPalette w row)).length = ansiRowLen o dosPalette w row := by simp; omega
+    obtain ⟨G1, G2⟩ := lineOk_gen o im ic hic row (hd row List.mem_cons_self) (ansiRowLen o dosPalette w row) 0 st A (by omega) hrel
     unfold genCells
-    generalize hg : genCellsRow o dosPalette im row (ansiRowLen o w row) 0 st = res at G1 G2
+    generalize hg : genCellsRow o dosPalette im row (ansiRowLen o dosPalette w row) 0 st = res at G1 G2
     obtain ⟨line, st1⟩ := res
     simp only [List.drop_zero] at G1 G2 ⊢
-    have hll : line.length = ansiRowLen o w row := by rw [G1.length_eq, htl]
+    have hll : line.length = ansiRowLen o dosPalette w row := by rw [G1.length_eq, htl]
     have hylt : y + 1 < 1000 := by simp at hy; omega
     obtain ⟨p1, core1, e1, s1, inv1⟩ := head_read ic A w p core y first hinv hA hylt
     have hx0 : core1.scr.cx = 0 := by rw [s1]; rfl
-    obtain ⟨items, I1, I2, I3, I4⟩ := genLine_items o ic w hw line.length (row.take (ansiRowLen o w row)) line A 0 p1 core1 (Nat.le_refl _) G1
+    obtain ⟨items, I1, I2, I3, I4⟩ := genLine_items o ic w hw line.length (row.take (ansiRowLen o dosPalette w row)) line A 0 p1 core1 (Nat.le_refl _) G1
       (by rw [htl]; omega) inv1 (fun _ => hx0)
-    have hil : items.length = ansiRowLen o w row := by rw [I1, htl]
+    have hil : items.length = ansiRowLen o dosPalette w row := by rw [I1, htl]
     unfold genLines
     simp only [hl, if_true, Bool.not_true, Bool.false_eq_true, false_and, if_false, List.append_nil]
     rw [List.append_assoc, ansiRun_append, e1]
@@ -223,7 +223,7 @@ theorem rows_longer (o : AnsiOpts) (im : IceMode) (ic : Bool) (hic : ic = decide
     generalize hr : ansiRun p1 core1 (genLine o w line.length 0 line) = res at I3 I4
     obtain ⟨p2, core2⟩ := res
     simp only [] at I3 I4 ⊢
-    obtain ⟨irows, J1, J2, J3, J4⟩ := ih st1 (lastAttr ic A (row.take (ansiRowLen o w row))) (y + 1) false p2 core2
+    obtain ⟨irows, J1, J2, J3, J4⟩ := ih st1 (lastAttr ic A (row.take (ansiRowLen o dosPalette w row))) (y + 1) false p2 core2
       (fun r hr => hfull r (List.mem_cons_of_mem _ hr)) (fun r hr => hd r (List.mem_cons_of_mem _ hr)) G2 I4 (fun h => by cases h)
       (by simp at hy; omega)
     refine ⟨items :: irows, RowsOk.cons row items rest irows hil I2 J1, ?_, J3, J4⟩
